@@ -728,6 +728,66 @@ def r7_boolean_attributes(repo):
     return obs
 
 
+def r8_operator_text(repo):
+    """'every operator of the program appears': the translators print an operator through `format(.., node.operator)` /
+    `str(node.operator)`, i.e. through Operator.__str__.  For every operator name the IR defines, the text must be the name,
+    prefixed with `!` when negated (`!=`, `!==`, `!is`, `!in` in all four languages).  Decided by evaluating __str__ over
+    the operator names that occur in `Operator(...)` constructions."""
+    from ..absint import AObj, run
+    obs = []
+    op = repo.cls("src.ir.ast.Operator")
+    m = op.lookup("__str__")
+    names = set()
+    for mod in repo.modules.values():
+        for k in ast.walk(mod.tree):
+            if isinstance(k, ast.Call) and call_name(k) == "Operator" and k.args and isinstance(k.args[0], ast.Constant) and \
+                    isinstance(k.args[0].value, str):
+                names.add(k.args[0].value)
+    bad = []
+    for nm in sorted(names):
+        for neg in (False, True):
+            me = AObj("Operator(%r, is_not=%s)" % (nm, neg), is_not=neg)
+            me.attrs["name"] = nm
+            me.cls = op
+            got = run(m.node, {m.params[0]: me, "__class__": m.cls}, {})
+            want = ("!" if neg else "") + nm
+            if got != want:
+                bad.append("%s prints %r (must be %r)" % (me.name, got, want))
+    obs.append(Ob("C12-R8", "Operator.__str__:name-with-!-when-negated", _w(m), bool(names) and not bad,
+                  "%d operator names x {plain, negated} evaluated; wrong texts: %s" % (len(names), bad[:4])))
+    obs.append(Ob("C12-R8", "operator-names>=10", "src/ir/ast.py", len(names) >= 10, "%d names: %s" % (len(names), sorted(names))))
+    return obs
+
+
+JAVA_PRIMITIVES = {"IntegerType": "int", "ShortType": "short", "LongType": "long", "ByteType": "byte", "FloatType": "float",
+                   "DoubleType": "double", "CharType": "char", "BooleanType": "boolean"}
+
+
+def r9_java_primitive_names(repo):
+    """'a declared type is printed': the Java translator prints a type through get_name().  A primitive built-in must
+    print as its Java keyword (JLS 4.2), the boxed one as its wrapper class (the default `name` of the constructor).
+    Decided by evaluating get_name() along the class's MRO (constant propagation, no execution)."""
+    from ..absint import AObj, call_method
+    obs = []
+    for cn, kw in sorted(JAVA_PRIMITIVES.items()):
+        c = repo.cls("src.ir.java_types." + cn)
+        init = c.lookup("__init__")
+        a = init.node.args
+        params = [x.arg for x in a.args]
+        defaults = dict(zip(params[len(params) - len(a.defaults):], a.defaults))
+        boxed = const_value(defaults.get("name")) if "name" in defaults else None
+        if not isinstance(boxed, str):
+            raise AnalysisError("%s.__init__ has no literal default name" % cn, rule="C12-R9", anchor=c.qualname)
+        for prim, want in ((True, kw), (False, boxed)):
+            me = AObj("%s(primitive=%s)" % (cn, prim), primitive=prim, supertypes=[])
+            me.attrs["name"] = boxed
+            me.cls = c
+            got = call_method(me, c, "get_name", [], {})
+            obs.append(Ob("C12-R9", "java:%s:%s-prints-%s" % (cn, "primitive" if prim else "boxed", want), _w(c.lookup("get_name")),
+                          got == want, "%s.get_name() evaluates to %r, Java spells it %r" % (me.name, got, want)))
+    return obs
+
+
 def rules():
     return [
         RuleSpec("C12-R1", "annotation printed iff carried; writer/reader agreement (R1+R2)", 18, r1_r2_annotations),
@@ -736,6 +796,8 @@ def rules():
         RuleSpec("C12-R5", "positional assembly follows children() order", 12, r5_offsets),
         RuleSpec("C12-R6", "result-stack discipline of every visitor", 120, r6_stack),
         RuleSpec("C12-R7", "boolean attributes of the node are consulted independently (all visitors)", 25, r7_boolean_attributes),
+        RuleSpec("C12-R8", "operator text (Operator.__str__ over every operator name of the IR)", 2, r8_operator_text),
+        RuleSpec("C12-R9", "Java spelling of primitive and boxed built-in types (get_name along the MRO)", 16, r9_java_primitive_names),
     ]
 
 
